@@ -131,3 +131,14 @@ class SimStream:
 
     def write(self, b):
         raise io.UnsupportedOperation("SimStream is read-only")
+
+
+class PipeLikeSimStream(SimStream):
+    """The same stream announcing itself as NOT seekable (pipe, socket file, raw device): `seekable()` returns False. seek
+    and tell keep working (some such objects implement them), so every reader of the library can still run on it."""
+
+    def seekable(self):
+        return False
+
+    def readable(self):
+        return True
